@@ -265,6 +265,55 @@ def r5(ctx, ts):
     ctx.floor(R, 6)
 
 
+LINK_OPS = {"explicit_partition", "partition_oneway", "explicit_repair", "repair_oneway", "hold", "release"}
+WIRING = {
+    "partition": ("partition_many", "partition", "explicit_partition"),
+    "partition_oneway": ("partition_oneway_many", "partition_oneway", "partition_oneway"),
+    "repair": ("repair_many", "repair", "explicit_repair"),
+    "repair_oneway": ("repair_oneway_many", "repair_oneway", "repair_oneway"),
+    "hold": ("hold_many", "hold", "hold"),
+    "release": ("release_many", "release", "release"),
+}
+
+
+def r6(ctx, ops=("partition", "partition_oneway", "repair", "repair_oneway"), R="C03-R6"):
+    ctx.rule(R, "API wiring (sibling agreement across layers): for each control operation the free function turmoil::<op>, Sim::<op>, "
+                "World::<op>_many, World::<op> and Topology::<op> reach exactly one Link-level operation - their own - and pass the two host "
+                "arguments on in parameter order (a one-way operation applied in the wrong direction or a two-way one in its place breaks "
+                "the partition semantics although every layer looks fine alone)")
+    for op in ops:
+        many, topo, link = WIRING[op]
+        chain = [f"turmoil::{op}", f"turmoil::sim::Sim::{op}", f"turmoil::world::World::{many}", f"turmoil::world::World::{op}", f"turmoil::top::Topology::{topo}"]
+        for fid in chain:
+            b = ctx.body(R, fid)
+            if not b:
+                continue
+            reach = reach_bodies(ctx.w, [fid])
+            got = sorted(x.rsplit("::", 1)[1] for x in reach if x.startswith("turmoil::top::Link::") and x.rsplit("::", 1)[1] in LINK_OPS)
+            ok = got == [link]
+            ctx.inst(R, f"{fid}:reaches-{link}", ok, b.span, f"reaches exactly Link::{link}" if ok else
+                     f"`{fid}` reaches Link::{got} instead of exactly Link::{link}: the operation requested through this entry point is not the one performed")
+            # parameter order at every call into the next layer
+            nxt = set(chain) | {f"turmoil::top::Link::{link}", "turmoil::for_pairs", "turmoil::top::Pair::new"}
+            for fb in ctx.w.family(fid):
+                for bb, t in fb.calls():
+                    if t["f"] not in nxt or t["f"] == fb.id or len(t["args"]) < 2:
+                        continue
+                    pair = t["args"][0:2] if t["f"].endswith("for_pairs") else t["args"][-2:]
+                    a = [Slicer(ctx.w).atoms(fb, x) for x in pair]
+                    good = False
+                    for F in {fb.id, fid}:
+                        Fb = ctx.w.bodies.get(F)
+                        if not Fb:
+                            continue
+                        n = Fb.argc
+                        pa = [sorted(int(z.split(":")[1]) for z in at if z.startswith("arg:") and z.endswith("@" + F)) for at in a]
+                        if (n - 1 in pa[0] and n not in pa[0]) and (n in pa[1] and n - 1 not in pa[1]):
+                            good = True
+                    ctx.inst(R, f"{fb.id}->{t['f'].rsplit('::', 1)[1]}:argument-order", good, t["s"], "host arguments forwarded in order" if good else
+                             f"`{fb.id}` forwards its two host arguments to `{t['f']}` swapped or mixed: the direction of the operation is reversed")
+
+
 def run(ctx):
     ts = Typestate(ctx.w, CELLS)
     r1(ctx, ts)
@@ -272,3 +321,5 @@ def run(ctx):
     r3(ctx, ts)
     r4(ctx, ts)
     r5(ctx, ts)
+    r6(ctx)
+    ctx.floor("C03-R6", 30)
